@@ -408,10 +408,13 @@ class SharesManager(BaseManager):
         if parents:
             parent = parents[-1]
             children = parent.get_items_for_directory(directory_object)
-            directory_object.items |= children
             parent.items -= children
+            directory_object.items |= self._move_items(children, directory_object)
 
         self._shared_directories.append(directory_object)
+        if parents:
+            # Items have been moved, the old items should no longer be found
+            self.rebuild_term_map()
 
         self._event_bus.emit_sync(SharedDirectoryChangeEvent(directory_object))
 
@@ -492,9 +495,11 @@ class SharesManager(BaseManager):
         # directory
         if parents:
             parent = parents[-1]
-            parent.items |= shared_directory.items
+            parent.items |= self._move_items(shared_directory.items, parent)
 
-        self._cleanup_term_map()
+        # The items of the removed directory should no longer be found
+        shared_directory.items = set()
+        self.rebuild_term_map()
 
         self._event_bus.emit_sync(SharedDirectoryChangeEvent(shared_directory))
 
@@ -892,6 +897,29 @@ class SharesManager(BaseManager):
                 files=convert_items_to_file_data(items, use_full_path=False)
             )
         ]
+
+    def _move_items(self, items: set[SharedItem], shared_directory: SharedDirectory) -> set[SharedItem]:
+        """Creates new items for the given ``items`` that are owned by the given
+        ``shared_directory``: the subdirectory of an item is relative to the
+        shared directory it belongs to and the share mode of that directory
+        determines for who the item is locked
+        """
+        moved_items = set()
+        for item in items:
+            subdir = os.path.relpath(
+                os.path.dirname(item.get_absolute_path()),
+                shared_directory.absolute_path
+            )
+            moved_item = SharedItem(
+                shared_directory,
+                '' if subdir == '.' else subdir,
+                item.filename,
+                item.modified
+            )
+            moved_item.attributes = item.attributes
+            moved_items.add(moved_item)
+
+        return moved_items
 
     def _add_item_to_term_map(self, item: SharedItem):
         path = (item.subdir + "/" + item.filename).lower()
